@@ -167,6 +167,7 @@ def run(res, ctx):
                 st["distinct_nontrivial"] += 1
                 if len(samples) < 3:
                     samples.append({"csv": r["hc"]["files"][0]})
+    supplied_variants(res, ctx, st, rng, 250 if tier == "quick" else 2500)
     if tier == "thorough":
         sweep(res, ctx, st)
     if corr and not res.violations:
@@ -182,6 +183,73 @@ def run(res, ctx):
         "input_distribution": dict(sorted(st.items())),
         "traces_validated_against_impl": st["evaluations"],
     })
+
+
+def supplied_variants(res, ctx, st, rng, n):
+    """second pass: take generated histories with an automatically detected superficial
+    loss and re-run them with a user-supplied value on that sale: equal to the computed
+    one, within / beyond the 0.001 tolerance, zero, forced"""
+    base = []
+    tries = 0
+    while len(base) < n and tries < n * 6:
+        tries += 1
+        rows = gen.gen_history(rng, p_invalid=0.0, p_sfl_spec=0.0, p_split=0.05, p_roc=0.02, window_focus=True,
+                               terminating_only=True)
+        base.append({"rows": rows, "inits": {}})
+    firsts = corecheck.run_cases(ctx, base)
+    variants, expect = [], []
+    for r in firsts:
+        i = r["impl"]
+        if i["status"] != "ok" or 0 not in i["secs"] or i["secs"][0]["stop"][0] != 0:
+            continue
+        for d in i["secs"][0]["deltas"]:
+            if d["act"] == "Sell" and d["sfl"] is not None and d["ri"] is not None:
+                comp = d["sfl"][0]
+                try:
+                    core.dtext(comp)
+                except ValueError:
+                    continue
+                cands = [(comp, False, "accept"), (comp + Fraction(1, 2000), False, "accept" if comp + Fraction(1, 2000) <= 0 else None),
+                         (comp + Fraction(1, 500), False, "reject" if comp + Fraction(1, 500) <= 0 else None),
+                         (Fraction(0), False, "reject" if abs(comp) > Fraction(1, 1000) else "accept"),
+                         (Fraction(0), True, "accept"), (comp * 2, True, "accept")]
+                sv, force, exp = rng.choice(cands)
+                if exp is None:
+                    continue
+                if len(core.dtext(sv).replace("-", "").replace(".", "").lstrip("0")) > 28:
+                    continue        # not a rust_decimal literal: the parser itself would round it
+                rows = [dict(x) for x in r["case"]["rows"]]
+                rows[d["ri"]]["sfl"] = ((core.dtext(sv), sv), force)
+                variants.append({"rows": rows, "inits": {}})
+                expect.append((d["ri"], sv, force, exp, comp))
+                break
+    for r, (ri, sv, force, exp, comp) in zip(corecheck.run_cases(ctx, variants), expect):
+        st["evaluations"] += 1
+        st["supplied-variant-" + exp] += 1
+        i = r["impl"]
+        dd = core.diff_exact(r["dec"], i)
+        if dd is not None:
+            res.violation("broken-correspondence", "model (dec) and implementation differ on a supplied-SfL variant: " + dd,
+                          {"theorem_or_projection": "correspondence projection C02", "input": r["hc"]}, found_input=False)
+        if i["status"] != "ok":
+            continue
+        so = i["secs"][0]
+        rejected = so["stop"][0] == 1 and so["stop"][1] == 12
+        row = [d for d in so["deltas"] if d["ri"] == ri and d["act"] == "Sell"]
+        if exp == "reject" and not rejected:
+            res.violation("failing-input", "supplied superficial loss %s (not forced) accepted although the computed value is %s (difference > 0.001)" % (sv, comp),
+                          {"input": r["hc"], "row": ri})
+        elif exp == "accept":
+            if rejected and len(so["deltas"]) <= ri + 5 and not row:
+                res.violation("failing-input", "supplied superficial loss %s (%s) rejected although within 0.001 of the computed value %s or forced" % (sv, "forced" if force else "not forced", comp),
+                              {"input": r["hc"], "row": ri})
+            elif row:
+                d = row[0]
+                denied = d["sfl"][0] if d["sfl"] else ZERO
+                if abs(denied - sv) > TOL:
+                    res.violation("failing-input", "supplied superficial loss %s not used: reported %s" % (sv, denied), {"input": r["hc"], "row": ri})
+                if [x for x in so["deltas"] if x["act"] == "SfLA" and x["ri"] == ri]:
+                    res.violation("failing-input", "automatic adjustments generated although the superficial loss was supplied", {"input": r["hc"], "row": ri})
 
 
 def sweep(res, ctx, st):
